@@ -139,5 +139,9 @@ func seedPrograms() []*progCase {
 		Blk(Blk(Pr(S("nested")))),
 		&While{Cond: Bin("<", &Postfix{"++", V("w")}, num("2")), Body: Pr(S("w"), V("w"))},
 	))
+	// 16 bare print followed by further statements, body-less rule, statements after blocks
+	add([]inFile{{"in.json", `[4,5]`}}, nil, begin(),
+		&Rule{Body: Blk(Pr(), Ex(Asg("=", V("x"), Bin("+", V("x"), V("$")))), Pr(), &If{Cond: num("1"), Then: Blk(Pr(S("x"), V("x")))}, Pr(S("after block")), &Exit{})},
+	)
 	return out
 }
